@@ -470,6 +470,15 @@ func (w *World) callMods(pkg *packages.Package, c *Ctx, call *ast.CallExpr, ms *
 	key := funcKeyOf(fn)
 	if fn.Pkg() != nil {
 		switch fn.Pkg().Path() {
+		case "sort":
+			// sort.Slice / SliceStable permute the elements of the slice they are given (hard-wired model)
+			if (fn.Name() == "Slice" || fn.Name() == "SliceStable") && len(call.Args) > 0 {
+				if t := info.TypeOf(call.Args[0]); t != nil {
+					if sl, ok := types.Unalias(t).Underlying().(*types.Slice); ok {
+						ms.heaps["E:"+typeKey(sl.Elem())] = true
+					}
+				}
+			}
 		case "sync":
 			// lock state lives in the LK ghost heap (no events); wait groups and Once.Do callbacks are events
 			switch fn.Name() {
